@@ -46,6 +46,9 @@ var (
 	c15Files = map[string][]byte{}
 )
 
+// c15Small: the small (dummy-circuit) proving system once c15Bytes("small", ...) has built it.
+var c15Small *prover.ProvingSystem
+
 func c15Bytes(system, format string) ([]byte, error) {
 	k := system + "/" + format
 	c15Mu.Lock()
@@ -64,6 +67,7 @@ func c15Bytes(system, format string) ([]byte, error) {
 			return nil, err
 		}
 		ps = &prover.ProvingSystem{TreeDepth: 1, BatchSize: 1, ProvingKey: pk, VerifyingKey: vk, ConstraintSystem: ccs}
+		c15Small = ps
 	} else {
 		var err error
 		if ps, err = getSystem(system, 1, 1, 0); err != nil {
